@@ -20,6 +20,7 @@ Record sconf := mkSConf {
   sc_pic_file : option bytes;                      (* cover file *)
   sc_no_readpicture : bool;                        (* server predates readpicture *)
   sc_limit : N;                                    (* binary chunk limit (binarylimit) *)
+  sc_limits : list N;                              (* if non-empty: the limit in force varies; the one used at offset o is the (o mod length)-th *)
   sc_file_ack : bool;                              (* no cover file: ACK 50 (true) or an empty reply (false) *)
   sc_rp_err : option N                             (* readpicture fails with this error code *)
 }.
@@ -51,6 +52,12 @@ Definition picture_reply (pic : bytes) (mime : option bytes) (limit off : N) : b
   field_line (b "size") (render_dec size) ++
   match mime with Some m => field_line (b "type") m | None => [] end ++
   b "binary: " ++ render_dec (N.of_nat (length chunk)) ++ [LF] ++ chunk ++ [LF].
+
+Definition limit_at (cf : sconf) (off : N) : N :=
+  match sc_limits cf with
+  | [] => sc_limit cf
+  | ls => nth (N.to_nat (off mod N.of_nat (length ls))) ls (sc_limit cf)
+  end.
 
 Definition all_digits (s : bytes) : bool := match s with [] => false | _ => forallb is_digit s end.
 
@@ -88,14 +95,14 @@ Definition exec_cmd (cf : sconf) (idx : N) (line : bytes) : bytes + bytes :=
             | None => inl []
             | Some (pic, mime) =>
               if N.of_nat (length pic) <? o then inr (ack_line 2 idx name (b "Bad file offset"))
-              else inl (picture_reply pic mime (sc_limit cf) o)
+              else inl (picture_reply pic mime (limit_at cf o) o)
             end
           else
             match sc_pic_file cf with
             | None => if sc_file_ack cf then inr (ack_line 50 idx name (b "No file exists")) else inl []
             | Some pic =>
               if N.of_nat (length pic) <? o then inr (ack_line 2 idx name (b "Bad file offset"))
-              else inl (picture_reply pic None (sc_limit cf) o)
+              else inl (picture_reply pic None (limit_at cf o) o)
             end
         | _ => inr (ack_line 2 idx name (b "wrong number of arguments"))
         end
